@@ -1389,6 +1389,29 @@ def bracket_heavy_leaf(features=ALL_FEATURES):
     return st.one_of(frm, frm, bfrm, named, named, leaf_strategy(features))
 
 
+ENTANGLE_SEPS = ['|', '|', '', '\\|', ')', '(', '.', '-', '|(', ')|', '\n']
+
+
+def entangle(tree, spec):
+    """Make one literal of the tree a composite of two literals of the same tree (`a` + separator + `b`, separator mostly '|'):
+    spec = [target, a, b, separator index]. Text-level shortcuts that split, compare or de-duplicate operand *texts* confuse a
+    literal 'yes|no' with the alternatives 'yes' and 'no' next to it. Returns the tree unchanged when it has < 2 literals."""
+    if not spec:
+        return tree
+    lits = [(path, n) for path, n in paths(tree) if n[0] == 'lit' and n[1] != '']
+    if len(lits) < 2:
+        return tree
+    t, a, b, k = spec
+    target = lits[t % len(lits)]
+    text = lits[a % len(lits)][1][1] + ENTANGLE_SEPS[k % len(ENTANGLE_SEPS)] + lits[b % len(lits)][1][1]
+    return replace_at(tree, target[0], lambda n: ['lit', text[:60], n[2]])
+
+
+def entangle_strategy():
+    from hypothesis import strategies as st
+    return st.one_of(st.none(), st.none(), st.none(), st.tuples(st.integers(0, 9), st.integers(0, 9), st.integers(0, 9), st.integers(0, 10)).map(list))
+
+
 def hostile_tree(max_leaves=4):
     """Small Concat/Either trees whose leaves are what a text-based reading of the emitted pattern most easily
     misreads: literal backslashes (token or string) right in front of bracket classes, classes listing parentheses /
